@@ -484,21 +484,44 @@ def _strip_wrappers(t):
 
 
 def _returns_call(b, call_bb):
-    """The value in _0 at return derives from the call in call_bb (directly, or as the payload of
-    Ok(Box::new(..)) after `?`)."""
+    """The value in _0 at return IS the call's result: directly, or wrapped as Ok(Box::new(result?)) / Ok(result?)."""
+    def is_call(t):
+        for _ in range(8):
+            while t[0] in ('ref', 'deref', 'cast'):
+                t = t[1] if t[0] != 'cast' else t[2]
+            if t[0] == 'call' and t[3] == call_bb:
+                return True
+            if t[0] == 'agg' and t[1] == 'adt' and str(t[2]).endswith('Result::Ok') and len(t[3]) == 1:
+                t = t[3][0]
+                continue
+            if t[0] == 'call' and (t[4].startswith('std::boxed::Box') and t[4].endswith('::new')) and len(t[2]) == 1:
+                t = t[2][0]
+                continue
+            if t[0] == 'field' and t[2] == '0' and t[1][0] == 'as' and t[1][2] == 'Continue' and t[1][1][0] == 'call' and t[1][1][4].endswith('::branch'):
+                t = t[1][1][2][0]
+                continue
+            return False
+        return False
     dest = b.blocks[call_bb]['term']['dest']
-    if dest['l'] == 0:
+    if dest['l'] == 0 and not dest['p']:
         return True
+    ok = False
     for bi, si, s in b.stmts():
-        if s['s'] == 'assign' and s['pl']['l'] == 0:
+        if s['s'] == 'assign' and s['pl']['l'] == 0 and not s['pl']['p']:
             t = b.tree_of_rvalue(s['rv'])
-            for x in walk_tree(t):
-                if x[0] == 'call' and len(x) > 3 and x[3] == call_bb:
-                    return True
+            if t[0] == 'agg' and str(t[2]).endswith('Result::Err'):
+                continue
+            if is_call(t):
+                ok = True
+            else:
+                return False
     for bi, t in b.calls():
-        if t['dest']['l'] == 0:
+        if t['dest']['l'] == 0 and not t['dest']['p'] and bi != call_bb:
             tr = b.tree_of_call(t, 0, bi)
-            for x in walk_tree(tr):
-                if x[0] == 'call' and len(x) > 3 and x[3] == call_bb:
-                    return True
-    return False
+            if tr[4].endswith('from_residual'):
+                continue
+            if is_call(tr):
+                ok = True
+            else:
+                return False
+    return ok
